@@ -1,6 +1,615 @@
-(* C06 - placeholder until Proofs/CursorProofs.v is merged *)
-From Xeh Require Import Model.Prelude Model.Bits Model.Cell Model.Vm Model.Words.
+(* C06 - Parsing cursor: a read returns exactly the requested bits and advances that far.
+   Property theorems only; every one is closed by [exact] of a lemma proved in Proofs/.
 
-Theorem C06_slots_distinct : R_INPUT <> R_OFFSET /\ R_OFFSET <> R_STASH /\ R_INPUT <> R_STASH.
-Proof. repeat split; discriminate. Qed.
-Check C06_slots_distinct : R_INPUT <> R_OFFSET /\ R_OFFSET <> R_STASH /\ R_INPUT <> R_STASH.
+   Vocabulary (Proofs/CursorDefs.v, Proofs/CursorTable.v, Proofs/CursorSeq.v):
+   - [cursor s inp off]: the machine [s] is not in meta mode, its heap has the six cells of the
+     bit-string module, R_INPUT holds the well-formed bit-string [inp] (any alignment, any stale
+     bits around the range; end below 2^64), R_OFFSET holds the absolute bit offset [off] with
+     cstart inp <= off <= cend inp.
+   - [slice_bits inp off n]: bits [off, off+n) of the input as a list of booleans;
+     [sub inp off n] the same range as a value sharing the input's buffer.
+   - [read_done s s' inp off n rest v]: 0 <= n, off + n <= cend inp, the data stack of [s'] is
+     [v :: rest], the heap of [s'] is the heap of [s] with R_OFFSET := off + n (so input, stash,
+     byte order, output cells are untouched), nothing else changed ([sim]: [s'] differs from
+     [s] at most in data stack, heap and reverse log).
+   - [bits_read] / [num_read] / [real_read]: [read_done] plus what the pushed value is: a
+     well-formed bit-string denoting exactly [slice_bits inp off n] / an integer / a real,
+     the numbers tagged with length and byte order; and [cursor s' inp (off + n)].
+   - [fail_frame ar s s']: what EVERY failure leaves behind, whatever the error kind (read past
+     the end, mismatch, bad argument, float length, the data-stack limit refusing the result):
+     the heap is untouched (input, offset, stash, byte order, output), the data stack is the
+     original minus at most [ar] popped arguments, nothing else changed.  (The reading words
+     push their result first and advance afterwards; with the former order a push refused by
+     the stack limit left the offset moved - that defect was found by this proof and repaired.)
+   - [behaves r Q E]: the result [r] is a normal return in a state satisfying [Q] or an error of
+     kind [k] in a state satisfying [E k]; never a panic, never outside the model.
+   - [cur_inv s]: some cursor holds, R_STASH holds a vector of valid suspended cursors, every
+     bit-string on the data stack is well-formed.
+   - [cursor_table fo]: the parsing words by name; [plain_table fo] all of them except
+     open-bitstr / close-bitstr. *)
+From Xeh Require Import Model.Prelude Model.Bits Model.Codec Model.Cell Model.Lexer Model.Fmt
+                        Model.Vm Model.Words Model.Boot.
+From Xeh Require Import Proofs.BitsBasic Proofs.VmStep Proofs.CursorDefs Proofs.CursorProofs
+                        Proofs.CursorWords Proofs.CursorTable Proofs.CursorInv Proofs.CursorSeq
+                        Proofs.CursorProgress Proofs.CursorFrame.
+Local Notation length := List.length.
+
+(* ---------- the words are the programs of the interpreter's table ---------- *)
+Theorem C06_word_table : forall fo,
+  Forall (fun nw => native_fn fo (fst nw) = Some (snd nw)) (cursor_table fo).
+Proof. exact cursor_table_native. Qed.
+Check C06_word_table : forall fo,
+  Forall (fun nw => native_fn fo (fst nw) = Some (snd nw)) (cursor_table fo).
+
+(* what the slice is: a well-formed value denoting bits [off, off+n) of the input *)
+Theorem C06_slice : forall inp off n,
+  wf inp -> (Z.of_nat (cstart inp) <= off)%Z -> (0 <= n)%Z -> (off + n <= Z.of_nat (cend inp))%Z ->
+  wf (sub inp off n) /\ abs (sub inp off n) = slice_bits inp off n /\
+  clen (sub inp off n) = Z.to_nat n.
+Proof. exact sub_spec. Qed.
+Check C06_slice : forall inp off n,
+  wf inp -> (Z.of_nat (cstart inp) <= off)%Z -> (0 <= n)%Z -> (off + n <= Z.of_nat (cend inp))%Z ->
+  wf (sub inp off n) /\ abs (sub inp off n) = slice_bits inp off n /\
+  clen (sub inp off n) = Z.to_nat n.
+
+(* ---------- (a) (b): bits, bytes ---------- *)
+Theorem C06_bits : forall s inp off, cursor s inp off ->
+  behaves (with_size read_bits s)
+    (fun s' => exists c rest n, ds s = c :: rest /\ is_usize c n /\ bits_read s s' inp off n rest)
+    (fun _ => fail_frame 1 s).
+Proof. exact bits_word. Qed.
+Check C06_bits : forall s inp off, cursor s inp off ->
+  behaves (with_size read_bits s)
+    (fun s' => exists c rest n, ds s = c :: rest /\ is_usize c n /\ bits_read s s' inp off n rest)
+    (fun _ => fail_frame 1 s).
+
+Theorem C06_bytes : forall s inp off, cursor s inp off ->
+  behaves (with_size (fun n => read_bits (n * 8)) s)
+    (fun s' => exists c rest n, ds s = c :: rest /\ is_usize c n /\
+                                bits_read s s' inp off (n * 8) rest)
+    (fun _ => fail_frame 1 s).
+Proof. exact bytes_word. Qed.
+Check C06_bytes : forall s inp off, cursor s inp off ->
+  behaves (with_size (fun n => read_bits (n * 8)) s)
+    (fun s' => exists c rest n, ds s = c :: rest /\ is_usize c n /\
+                                bits_read s s' inp off (n * 8) rest)
+    (fun _ => fail_frame 1 s).
+
+(* ---------- unsigned numbers: uNle uNbe (explicit order), uN (current order), uint ---------- *)
+Theorem C06_unsigned : forall s inp off, cursor s inp off -> forall n o,
+  behaves (read_unsigned n o s)
+    (fun s' => (n <= 127)%Z /\
+               num_read s s' inp off n (ds s) o (spec_uint o (slice_bits inp off n)))
+    (fun _ => fail_frame 0 s).
+Proof. exact unsigned_word. Qed.
+Check C06_unsigned : forall s inp off, cursor s inp off -> forall n o,
+  behaves (read_unsigned n o s)
+    (fun s' => (n <= 127)%Z /\
+               num_read s s' inp off n (ds s) o (spec_uint o (slice_bits inp off n)))
+    (fun _ => fail_frame 0 s).
+
+Theorem C06_unsigned_cur : forall s inp off, cursor s inp off -> forall n,
+  behaves (with_order (read_unsigned n) s)
+    (fun s' => exists o, h_order (heap s) = Some o /\ (n <= 127)%Z /\
+               num_read s s' inp off n (ds s) o (spec_uint o (slice_bits inp off n)))
+    (fun _ => fail_frame 0 s).
+Proof. exact unsigned_cur_word. Qed.
+Check C06_unsigned_cur : forall s inp off, cursor s inp off -> forall n,
+  behaves (with_order (read_unsigned n) s)
+    (fun s' => exists o, h_order (heap s) = Some o /\ (n <= 127)%Z /\
+               num_read s s' inp off n (ds s) o (spec_uint o (slice_bits inp off n)))
+    (fun _ => fail_frame 0 s).
+
+Theorem C06_uint : forall s inp off, cursor s inp off ->
+  behaves (with_size (fun n => with_order (read_unsigned n)) s)
+    (fun s' => exists c rest n, ds s = c :: rest /\ is_usize c n /\
+       exists o, h_order (heap s) = Some o /\ (n <= 127)%Z /\
+                 num_read s s' inp off n rest o (spec_uint o (slice_bits inp off n)))
+    (fun _ => fail_frame 1 s).
+Proof. exact uint_word. Qed.
+Check C06_uint : forall s inp off, cursor s inp off ->
+  behaves (with_size (fun n => with_order (read_unsigned n)) s)
+    (fun s' => exists c rest n, ds s = c :: rest /\ is_usize c n /\
+       exists o, h_order (heap s) = Some o /\ (n <= 127)%Z /\
+                 num_read s s' inp off n rest o (spec_uint o (slice_bits inp off n)))
+    (fun _ => fail_frame 1 s).
+
+(* ---------- signed numbers: iNle iNbe, iN, int ---------- *)
+Theorem C06_signed : forall s inp off, cursor s inp off -> forall n o,
+  behaves (read_signed n o s)
+    (fun s' => (n <= 128)%Z /\
+               num_read s s' inp off n (ds s) o (spec_int o (slice_bits inp off n)))
+    (fun _ => fail_frame 0 s).
+Proof. exact signed_word. Qed.
+Check C06_signed : forall s inp off, cursor s inp off -> forall n o,
+  behaves (read_signed n o s)
+    (fun s' => (n <= 128)%Z /\
+               num_read s s' inp off n (ds s) o (spec_int o (slice_bits inp off n)))
+    (fun _ => fail_frame 0 s).
+
+Theorem C06_signed_cur : forall s inp off, cursor s inp off -> forall n,
+  behaves (with_order (read_signed n) s)
+    (fun s' => exists o, h_order (heap s) = Some o /\ (n <= 128)%Z /\
+               num_read s s' inp off n (ds s) o (spec_int o (slice_bits inp off n)))
+    (fun _ => fail_frame 0 s).
+Proof. exact signed_cur_word. Qed.
+Check C06_signed_cur : forall s inp off, cursor s inp off -> forall n,
+  behaves (with_order (read_signed n) s)
+    (fun s' => exists o, h_order (heap s) = Some o /\ (n <= 128)%Z /\
+               num_read s s' inp off n (ds s) o (spec_int o (slice_bits inp off n)))
+    (fun _ => fail_frame 0 s).
+
+Theorem C06_int : forall s inp off, cursor s inp off ->
+  behaves (with_size (fun n => with_order (read_signed n)) s)
+    (fun s' => exists c rest n, ds s = c :: rest /\ is_usize c n /\
+       exists o, h_order (heap s) = Some o /\ (n <= 128)%Z /\
+                 num_read s s' inp off n rest o (spec_int o (slice_bits inp off n)))
+    (fun _ => fail_frame 1 s).
+Proof. exact int_word. Qed.
+Check C06_int : forall s inp off, cursor s inp off ->
+  behaves (with_size (fun n => with_order (read_signed n)) s)
+    (fun s' => exists c rest n, ds s = c :: rest /\ is_usize c n /\
+       exists o, h_order (heap s) = Some o /\ (n <= 128)%Z /\
+                 num_read s s' inp off n rest o (spec_int o (slice_bits inp off n)))
+    (fun _ => fail_frame 1 s).
+
+(* ---------- floats: fNle fNbe, fN, float.  The width must be 32 or 64 (otherwise the word
+   fails with the float-length error and, like every failure, changes nothing); the pattern
+   read is a function of the slice's bits alone ([fbits_of], = [spec_uint] by
+   [C06_float_pattern]) ---------- *)
+Theorem C06_float : forall s inp off, cursor s inp off -> forall fo n o,
+  behaves (read_float fo n o s)
+    (fun s' => exists pat, float_pat fo n o (slice_bits inp off n) pat /\
+                           real_read s s' inp off n (ds s) o pat)
+    (fun _ => fail_frame 0 s).
+Proof. exact float_word. Qed.
+Check C06_float : forall s inp off, cursor s inp off -> forall fo n o,
+  behaves (read_float fo n o s)
+    (fun s' => exists pat, float_pat fo n o (slice_bits inp off n) pat /\
+                           real_read s s' inp off n (ds s) o pat)
+    (fun _ => fail_frame 0 s).
+
+Theorem C06_float_cur : forall s inp off, cursor s inp off -> forall fo n,
+  behaves (with_order (read_float fo n) s)
+    (fun s' => exists o, h_order (heap s) = Some o /\
+               exists pat, float_pat fo n o (slice_bits inp off n) pat /\
+                           real_read s s' inp off n (ds s) o pat)
+    (fun _ => fail_frame 0 s).
+Proof. exact float_cur_word. Qed.
+Check C06_float_cur : forall s inp off, cursor s inp off -> forall fo n,
+  behaves (with_order (read_float fo n) s)
+    (fun s' => exists o, h_order (heap s) = Some o /\
+               exists pat, float_pat fo n o (slice_bits inp off n) pat /\
+                           real_read s s' inp off n (ds s) o pat)
+    (fun _ => fail_frame 0 s).
+
+Theorem C06_floatn : forall s inp off, cursor s inp off -> forall fo,
+  behaves (with_size (fun n => with_order (read_float fo n)) s)
+    (fun s' => exists c rest n, ds s = c :: rest /\ is_usize c n /\
+       exists o, h_order (heap s) = Some o /\
+       exists pat, float_pat fo n o (slice_bits inp off n) pat /\
+                   real_read s s' inp off n rest o pat)
+    (fun _ => fail_frame 1 s).
+Proof. exact floatn_word. Qed.
+Check C06_floatn : forall s inp off, cursor s inp off -> forall fo,
+  behaves (with_size (fun n => with_order (read_float fo n)) s)
+    (fun s' => exists c rest n, ds s = c :: rest /\ is_usize c n /\
+       exists o, h_order (heap s) = Some o /\
+       exists pat, float_pat fo n o (slice_bits inp off n) pat /\
+                   real_read s s' inp off n rest o pat)
+    (fun _ => fail_frame 1 s).
+
+Theorem C06_float_pattern : forall k o l, length l = 8 * k -> fbits_of k o l = spec_uint o l.
+Proof. exact fbits_of_spec. Qed.
+Check C06_float_pattern : forall k o l, length l = 8 * k -> fbits_of k o l = spec_uint o l.
+
+(* ---------- magic: the bits read are the pattern's bits; a mismatch is a failure ---------- *)
+Theorem C06_magic : forall s inp off, cursor s inp off ->
+  behaves (w_magic s)
+    (fun s' => exists c rest pat, ds s = c :: rest /\ value c = CBits pat /\
+       bits_read s s' inp off (Z.of_nat (clen pat)) rest /\
+       eq_with (sub inp off (Z.of_nat (clen pat))) pat = true /\
+       (wf pat -> slice_bits inp off (Z.of_nat (clen pat)) = abs pat))
+    (fun _ => fail_frame 1 s).
+Proof. exact magic_word'. Qed.
+Check C06_magic : forall s inp off, cursor s inp off ->
+  behaves (w_magic s)
+    (fun s' => exists c rest pat, ds s = c :: rest /\ value c = CBits pat /\
+       bits_read s s' inp off (Z.of_nat (clen pat)) rest /\
+       eq_with (sub inp off (Z.of_nat (clen pat))) pat = true /\
+       (wf pat -> slice_bits inp off (Z.of_nat (clen pat)) = abs pat))
+    (fun _ => fail_frame 1 s).
+
+(* ---------- nulbytestr / cstr: the number of bits consumed ([nul_bits]: up to and including
+   the first zero byte) and the characters ([cstr_of]) are functions of the remaining bits ---------- *)
+Theorem C06_nulbytestr : forall s inp off, cursor s inp off ->
+  behaves (w_nulbytestr s)
+    (fun s' => bits_read s s' inp off (Z.of_nat (nul_bits (rest_of inp off))) (ds s))
+    (fun _ => fail_frame 0 s).
+Proof. exact nulbytestr_word'. Qed.
+Check C06_nulbytestr : forall s inp off, cursor s inp off ->
+  behaves (w_nulbytestr s)
+    (fun s' => bits_read s s' inp off (Z.of_nat (nul_bits (rest_of inp off))) (ds s))
+    (fun _ => fail_frame 0 s).
+
+Theorem C06_cstr : forall s inp off, cursor s inp off ->
+  behaves (w_cstr s)
+    (fun s' => let n := Z.of_nat (nul_bits (rest_of inp off)) in
+               read_done s s' inp off n (ds s) (CStr (cstr_of (slice_bits inp off n))) /\
+               cursor s' inp (off + n))
+    (fun _ => fail_frame 0 s).
+Proof. exact cstr_word'. Qed.
+Check C06_cstr : forall s inp off, cursor s inp off ->
+  behaves (w_cstr s)
+    (fun s' => let n := Z.of_nat (nul_bits (rest_of inp off)) in
+               read_done s s' inp off n (ds s) (CStr (cstr_of (slice_bits inp off n))) /\
+               cursor s' inp (off + n))
+    (fun _ => fail_frame 0 s).
+
+(* ---------- when a read succeeds: inside the input, within the width limit, room on the stack ---------- *)
+Theorem C06_read_bits_succeeds : forall s inp off, cursor s inp off ->
+  limit_reached (stack_limit s) (length (ds s)) = false ->
+  forall n, (0 <= n)%Z -> (off + n <= Z.of_nat (cend inp))%Z ->
+  exists s', read_bits n s = ROk tt s'.
+Proof. exact read_bits_succeeds. Qed.
+Check C06_read_bits_succeeds : forall s inp off, cursor s inp off ->
+  limit_reached (stack_limit s) (length (ds s)) = false ->
+  forall n, (0 <= n)%Z -> (off + n <= Z.of_nat (cend inp))%Z ->
+  exists s', read_bits n s = ROk tt s'.
+
+Theorem C06_read_unsigned_succeeds : forall s inp off, cursor s inp off ->
+  limit_reached (stack_limit s) (length (ds s)) = false ->
+  forall n o, (0 <= n <= 127)%Z -> (off + n <= Z.of_nat (cend inp))%Z ->
+  exists s', read_unsigned n o s = ROk tt s'.
+Proof. exact read_unsigned_succeeds. Qed.
+Check C06_read_unsigned_succeeds : forall s inp off, cursor s inp off ->
+  limit_reached (stack_limit s) (length (ds s)) = false ->
+  forall n o, (0 <= n <= 127)%Z -> (off + n <= Z.of_nat (cend inp))%Z ->
+  exists s', read_unsigned n o s = ROk tt s'.
+
+Theorem C06_read_signed_succeeds : forall s inp off, cursor s inp off ->
+  limit_reached (stack_limit s) (length (ds s)) = false ->
+  forall n o, (0 <= n <= 128)%Z -> (off + n <= Z.of_nat (cend inp))%Z ->
+  exists s', read_signed n o s = ROk tt s'.
+Proof. exact read_signed_succeeds. Qed.
+Check C06_read_signed_succeeds : forall s inp off, cursor s inp off ->
+  limit_reached (stack_limit s) (length (ds s)) = false ->
+  forall n o, (0 <= n <= 128)%Z -> (off + n <= Z.of_nat (cend inp))%Z ->
+  exists s', read_signed n o s = ROk tt s'.
+
+Theorem C06_read_float_succeeds : forall s inp off, cursor s inp off ->
+  limit_reached (stack_limit s) (length (ds s)) = false ->
+  forall fo n o, n = 32%Z \/ n = 64%Z -> (off + n <= Z.of_nat (cend inp))%Z ->
+  exists s', read_float fo n o s = ROk tt s'.
+Proof. exact read_float_succeeds. Qed.
+Check C06_read_float_succeeds : forall s inp off, cursor s inp off ->
+  limit_reached (stack_limit s) (length (ds s)) = false ->
+  forall fo n o, n = 32%Z \/ n = 64%Z -> (off + n <= Z.of_nat (cend inp))%Z ->
+  exists s', read_float fo n o s = ROk tt s'.
+
+(* ---------- (b): the named failures, exactly ---------- *)
+(* a read past the end (or of a negative count): the read error; the state is untouched *)
+Theorem C06_read_past_end : forall s inp off, cursor s inp off -> forall n,
+  ~ ((0 <= n)%Z /\ (off + n <= Z.of_nat (cend inp))%Z) ->
+  read_bits n s = RErr ERead None s /\
+  (forall o, read_unsigned n o s = RErr ERead None s) /\
+  (forall o, read_signed n o s = RErr ERead None s) /\
+  (forall fo o, read_float fo n o s = RErr ERead None s).
+Proof. exact read_past_end. Qed.
+Check C06_read_past_end : forall s inp off, cursor s inp off -> forall n,
+  ~ ((0 <= n)%Z /\ (off + n <= Z.of_nat (cend inp))%Z) ->
+  read_bits n s = RErr ERead None s /\
+  (forall o, read_unsigned n o s = RErr ERead None s) /\
+  (forall o, read_signed n o s = RErr ERead None s) /\
+  (forall fo o, read_float fo n o s = RErr ERead None s).
+
+(* the documented width limits: uint beyond 127 bits, int beyond 128 bits *)
+Theorem C06_read_too_wide : forall s inp off, cursor s inp off -> forall n o,
+  (0 <= n)%Z -> (off + n <= Z.of_nat (cend inp))%Z ->
+  ((127 < n)%Z -> read_unsigned n o s = RErr EOverflow None s) /\
+  ((128 < n)%Z -> read_signed n o s = RErr EOverflow None s).
+Proof. exact read_too_wide. Qed.
+Check C06_read_too_wide : forall s inp off, cursor s inp off -> forall n o,
+  (0 <= n)%Z -> (off + n <= Z.of_nat (cend inp))%Z ->
+  ((127 < n)%Z -> read_unsigned n o s = RErr EOverflow None s) /\
+  ((128 < n)%Z -> read_signed n o s = RErr EOverflow None s).
+
+Theorem C06_float_bad_length : forall s inp off, cursor s inp off -> forall fo n o,
+  (0 <= n)%Z -> (off + n <= Z.of_nat (cend inp))%Z -> n <> 32%Z -> n <> 64%Z ->
+  read_float fo n o s = RErr EFloatLen None s.
+Proof. exact float_bad_length. Qed.
+Check C06_float_bad_length : forall s inp off, cursor s inp off -> forall fo n o,
+  (0 <= n)%Z -> (off + n <= Z.of_nat (cend inp))%Z -> n <> 32%Z -> n <> 64%Z ->
+  read_float fo n o s = RErr EFloatLen None s.
+
+Theorem C06_seek_out_of_range : forall s inp off, cursor s inp off -> forall c rest n,
+  ds s = c :: rest -> ds_len (cx s) < length (ds s) -> is_usize c n ->
+  ~ (Z.of_nat (cstart inp) <= n <= Z.of_nat (cend inp))%Z ->
+  exists s', w_seek s = RErr ESeek None s' /\ ds s' = rest /\ heap s' = heap s /\ sim s s'.
+Proof. exact seek_out_of_range. Qed.
+Check C06_seek_out_of_range : forall s inp off, cursor s inp off -> forall c rest n,
+  ds s = c :: rest -> ds_len (cx s) < length (ds s) -> is_usize c n ->
+  ~ (Z.of_nat (cstart inp) <= n <= Z.of_nat (cend inp))%Z ->
+  exists s', w_seek s = RErr ESeek None s' /\ ds s' = rest /\ heap s' = heap s /\ sim s s'.
+
+Theorem C06_magic_mismatch : forall s inp off, cursor s inp off -> forall c rest pat,
+  ds s = c :: rest -> ds_len (cx s) < length (ds s) -> value c = CBits pat ->
+  (off + Z.of_nat (clen pat) <= Z.of_nat (cend inp))%Z ->
+  eq_with (sub inp off (Z.of_nat (clen pat))) pat = false ->
+  exists s', w_magic s = RErr EMatch None s' /\ ds s' = rest /\ heap s' = heap s /\ sim s s'.
+Proof. exact magic_mismatch. Qed.
+Check C06_magic_mismatch : forall s inp off, cursor s inp off -> forall c rest pat,
+  ds s = c :: rest -> ds_len (cx s) < length (ds s) -> value c = CBits pat ->
+  (off + Z.of_nat (clen pat) <= Z.of_nat (cend inp))%Z ->
+  eq_with (sub inp off (Z.of_nat (clen pat))) pat = false ->
+  exists s', w_magic s = RErr EMatch None s' /\ ds s' = rest /\ heap s' = heap s /\ sim s s'.
+
+(* ---------- (b) as the plain frame property, for every error kind ---------- *)
+(* every parsing word except open-bitstr / close-bitstr, by name: after any failure the heap is
+   the same heap - so input and offset are what they were - and at most one argument is gone *)
+Theorem C06_fail_frame : forall fo,
+  Forall (fun nw => forall s inp off k p s', cursor s inp off -> snd nw s = RErr k p s' ->
+            heap s' = heap s /\ h_input (heap s') = Some inp /\ h_offset (heap s') = Some off /\
+            cursor s' inp off /\ sim s s' /\
+            exists args, ds s = (args ++ ds s')%list /\ length args <= 1)
+         (plain_table fo).
+Proof. exact plain_table_fail_keeps. Qed.
+Check C06_fail_frame : forall fo,
+  Forall (fun nw => forall s inp off k p s', cursor s inp off -> snd nw s = RErr k p s' ->
+            heap s' = heap s /\ h_input (heap s') = Some inp /\ h_offset (heap s') = Some off /\
+            cursor s' inp off /\ sim s s' /\
+            exists args, ds s = (args ++ ds s')%list /\ length args <= 1)
+         (plain_table fo).
+
+(* all parsing words, open-bitstr / close-bitstr included, on the full invariant *)
+Theorem C06_fail_frame_all : forall fo,
+  Forall (fun nw => forall s k p s', cur_inv s -> snd nw s = RErr k p s' -> fail_frame 1 s s')
+         (cursor_table fo).
+Proof. exact cursor_table_frame. Qed.
+Check C06_fail_frame_all : forall fo,
+  Forall (fun nw => forall s k p s', cur_inv s -> snd nw s = RErr k p s' -> fail_frame 1 s s')
+         (cursor_table fo).
+
+(* the reading cores, for every width and order: nothing popped, heap untouched *)
+Theorem C06_fail_keeps_state : forall s inp off k p s', cursor s inp off ->
+  (forall n, read_bits n s = RErr k p s' -> fail_frame 0 s s') /\
+  (forall n o, read_unsigned n o s = RErr k p s' -> fail_frame 0 s s') /\
+  (forall n o, read_signed n o s = RErr k p s' -> fail_frame 0 s s') /\
+  (forall fo n o, read_float fo n o s = RErr k p s' -> fail_frame 0 s s').
+Proof. exact fail_keeps_offset. Qed.
+Check C06_fail_keeps_state : forall s inp off k p s', cursor s inp off ->
+  (forall n, read_bits n s = RErr k p s' -> fail_frame 0 s s') /\
+  (forall n o, read_unsigned n o s = RErr k p s' -> fail_frame 0 s s') /\
+  (forall n o, read_signed n o s = RErr k p s' -> fail_frame 0 s s') /\
+  (forall fo n o, read_float fo n o s = RErr k p s' -> fail_frame 0 s s').
+
+(* the statement that was refuted against the former model, now a theorem *)
+Theorem C06_fail_keeps_offset : forall n o s inp off k p s', cursor s inp off ->
+  read_unsigned n o s = RErr k p s' ->
+  h_offset (heap s') = Some off /\ h_input (heap s') = Some inp.
+Proof. exact fail_keeps_offset_unsigned. Qed.
+Check C06_fail_keeps_offset : forall n o s inp off k p s', cursor s inp off ->
+  read_unsigned n o s = RErr k p s' ->
+  h_offset (heap s') = Some off /\ h_input (heap s') = Some inp.
+
+(* the stack-limit case exactly: the result is refused and the state left behind IS the state
+   before - nothing at all differs *)
+Theorem C06_limit_refused : forall s inp off, cursor s inp off -> forall n,
+  limit_reached (stack_limit s) (length (ds s)) = true ->
+  (0 <= n)%Z -> (off + n <= Z.of_nat (cend inp))%Z ->
+  read_bits n s = RErr ELimit None s /\
+  ((n <= 127)%Z -> forall o, read_unsigned n o s = RErr ELimit None s) /\
+  ((n <= 128)%Z -> forall o, read_signed n o s = RErr ELimit None s) /\
+  (n = 32%Z \/ n = 64%Z -> forall fo o, read_float fo n o s = RErr ELimit None s).
+Proof. exact limit_refused. Qed.
+Check C06_limit_refused : forall s inp off, cursor s inp off -> forall n,
+  limit_reached (stack_limit s) (length (ds s)) = true ->
+  (0 <= n)%Z -> (off + n <= Z.of_nat (cend inp))%Z ->
+  read_bits n s = RErr ELimit None s /\
+  ((n <= 127)%Z -> forall o, read_unsigned n o s = RErr ELimit None s) /\
+  ((n <= 128)%Z -> forall o, read_signed n o s = RErr ELimit None s) /\
+  (n = 32%Z \/ n = 64%Z -> forall fo o, read_float fo n o s = RErr ELimit None s).
+
+(* the former witness (stack of one cell at its limit 1, input |ab cd ef| sliced to [3, 19),
+   offset 3): u8be is refused and the offset stays at 3 *)
+Theorem C06_limit_keeps_offset_witness :
+  read_unsigned 8 Big lim_state = RErr ELimit None lim_state /\
+  h_offset (heap lim_state) = Some 3%Z.
+Proof. exact limit_keeps_offset. Qed.
+Check C06_limit_keeps_offset_witness :
+  read_unsigned 8 Big lim_state = RErr ELimit None lim_state /\
+  h_offset (heap lim_state) = Some 3%Z.
+
+(* ---------- (c): seek, remain, find ---------- *)
+Theorem C06_seek : forall s inp off, cursor s inp off ->
+  behaves (w_seek s)
+    (fun s' => exists c rest n, ds s = c :: rest /\ is_usize c n /\
+       (Z.of_nat (cstart inp) <= n <= Z.of_nat (cend inp))%Z /\
+       ds s' = rest /\ heap s' = list_set (heap s) R_OFFSET (cint n) /\ sim s s' /\
+       cursor s' inp n)
+    (fun _ => fail_frame 1 s).
+Proof. exact seek_word'. Qed.
+Check C06_seek : forall s inp off, cursor s inp off ->
+  behaves (w_seek s)
+    (fun s' => exists c rest n, ds s = c :: rest /\ is_usize c n /\
+       (Z.of_nat (cstart inp) <= n <= Z.of_nat (cend inp))%Z /\
+       ds s' = rest /\ heap s' = list_set (heap s) R_OFFSET (cint n) /\ sim s s' /\
+       cursor s' inp n)
+    (fun _ => fail_frame 1 s).
+
+Theorem C06_remain : forall s inp off, cursor s inp off ->
+  behaves (w_remain s)
+    (fun s' => ds s' = cint (Z.of_nat (cend inp) - off) :: ds s /\ heap s' = heap s /\ sim s s')
+    (fun _ => fail_frame 0 s).
+Proof. exact remain_word'. Qed.
+Check C06_remain : forall s inp off, cursor s inp off ->
+  behaves (w_remain s)
+    (fun s' => ds s' = cint (Z.of_nat (cend inp) - off) :: ds s /\ heap s' = heap s /\ sim s s')
+    (fun _ => fail_frame 0 s).
+
+Theorem C06_find : forall s inp off, cursor s inp off ->
+  behaves (w_find s)
+    (fun s' => exists c rest pat r, ds s = c :: rest /\ value c = CBits pat /\
+       ds s' = r :: rest /\ heap s' = heap s /\ sim s s' /\
+       (r = CNil \/ exists p, r = cint p /\ (off <= p <= Z.of_nat (cend inp))%Z))
+    (fun _ => fail_frame 1 s).
+Proof. exact find_word'. Qed.
+Check C06_find : forall s inp off, cursor s inp off ->
+  behaves (w_find s)
+    (fun s' => exists c rest pat r, ds s = c :: rest /\ value c = CBits pat /\
+       ds s' = r :: rest /\ heap s' = heap s /\ sim s s' /\
+       (r = CNil \/ exists p, r = cint p /\ (off <= p <= Z.of_nat (cend inp))%Z))
+    (fun _ => fail_frame 1 s).
+
+(* ---------- (c): the invariant is kept by every parsing word, in every outcome ---------- *)
+Theorem C06_invariant : forall fo,
+  Forall (fun nw => forall s, cur_inv s -> behaves (snd nw s) cur_inv (fun _ => cur_inv))
+         (cursor_table fo).
+Proof. exact cursor_table_inv. Qed.
+Check C06_invariant : forall fo,
+  Forall (fun nw => forall s, cur_inv s -> behaves (snd nw s) cur_inv (fun _ => cur_inv))
+         (cursor_table fo).
+
+(* words other than open-bitstr / close-bitstr never change the input or the stash *)
+Theorem C06_plain_words : forall fo,
+  Forall (fun nw => forall s, cur_inv s ->
+            behaves (snd nw s)
+                    (fun s' => h_input (heap s') = h_input (heap s) /\ h_stash (heap s') = h_stash (heap s))
+                    (fun _ s' => h_input (heap s') = h_input (heap s) /\ h_stash (heap s') = h_stash (heap s)))
+         (plain_table fo).
+Proof. exact plain_table_keeps. Qed.
+Check C06_plain_words : forall fo,
+  Forall (fun nw => forall s, cur_inv s ->
+            behaves (snd nw s)
+                    (fun s' => h_input (heap s') = h_input (heap s) /\ h_stash (heap s') = h_stash (heap s))
+                    (fun _ s' => h_input (heap s') = h_input (heap s) /\ h_stash (heap s') = h_stash (heap s)))
+         (plain_table fo).
+
+(* any sequence of parsing words and literals, run the way the test harness runs it (after an
+   error, go on from the state the failing word left): it never panics, never leaves the
+   model, and the invariant holds at the end (hence after every prefix) *)
+Theorem C06_sequence : forall fo l s, cur_inv s -> Forall cop_ok l ->
+  exists t s', run_seq fo l s = Some (t, s') /\ cur_inv s'.
+Proof. exact seq_inv. Qed.
+Check C06_sequence : forall fo l s, cur_inv s -> Forall cop_ok l ->
+  exists t s', run_seq fo l s = Some (t, s') /\ cur_inv s'.
+
+(* ---------- (d): open pushes (input, offset) on the stash, close pops and restores ---------- *)
+Theorem C06_open : forall s, cur_inv s ->
+  behaves (w_open_bitstr s)
+    (fun s' => exists inp off c rest b v e,
+       cursor s inp off /\ h_stash (heap s) = Some v /\ ds s = c :: rest /\ value c = CBits b /\
+       cur_inv s' /\ cursor s' b (Z.of_nat (cstart b)) /\ h_stash (heap s') = Some (v ++ [e]) /\
+       entry_input e = Some inp /\ entry_offset e = Some off /\ ds s' = rest)
+    (fun _ s' => cur_inv s' /\ h_input (heap s') = h_input (heap s) /\
+                 h_stash (heap s') = h_stash (heap s)).
+Proof. exact open_inv. Qed.
+Check C06_open : forall s, cur_inv s ->
+  behaves (w_open_bitstr s)
+    (fun s' => exists inp off c rest b v e,
+       cursor s inp off /\ h_stash (heap s) = Some v /\ ds s = c :: rest /\ value c = CBits b /\
+       cur_inv s' /\ cursor s' b (Z.of_nat (cstart b)) /\ h_stash (heap s') = Some (v ++ [e]) /\
+       entry_input e = Some inp /\ entry_offset e = Some off /\ ds s' = rest)
+    (fun _ s' => cur_inv s' /\ h_input (heap s') = h_input (heap s) /\
+                 h_stash (heap s') = h_stash (heap s)).
+
+Theorem C06_close : forall s, cur_inv s ->
+  behaves (w_close_bitstr s)
+    (fun s' => exists v e b o,
+       h_stash (heap s) = Some (v ++ [e]) /\ entry_input e = Some b /\ entry_offset e = Some o /\
+       cur_inv s' /\ cursor s' b o /\ h_stash (heap s') = Some v /\ ds s' = ds s)
+    (fun _ s' => h_stash (heap s) = Some [] /\
+                 cur_inv s' /\ h_input (heap s') = h_input (heap s) /\
+                 h_stash (heap s') = h_stash (heap s)).
+Proof. exact close_inv. Qed.
+Check C06_close : forall s, cur_inv s ->
+  behaves (w_close_bitstr s)
+    (fun s' => exists v e b o,
+       h_stash (heap s) = Some (v ++ [e]) /\ entry_input e = Some b /\ entry_offset e = Some o /\
+       cur_inv s' /\ cursor s' b o /\ h_stash (heap s') = Some v /\ ds s' = ds s)
+    (fun _ s' => h_stash (heap s) = Some [] /\
+                 cur_inv s' /\ h_input (heap s') = h_input (heap s) /\
+                 h_stash (heap s') = h_stash (heap s)).
+
+(* LIFO over sequences.  The trace [t] of [run_seq] records per executed step whether it was a
+   successful open ([EvOpen]), a successful close ([EvClose]) or anything else ([EvPlain]:
+   every other word, every literal, every failing word).  A balanced stretch leaves input and
+   stash as they were; an open, a balanced stretch, a close restore input, offset and stash
+   exactly. *)
+Theorem C06_balanced : forall fo t, bal t -> forall l s s', cur_inv s -> Forall cop_ok l ->
+  run_seq fo l s = Some (t, s') ->
+  h_input (heap s') = h_input (heap s) /\ h_stash (heap s') = h_stash (heap s).
+Proof. exact bal_keeps. Qed.
+Check C06_balanced : forall fo t, bal t -> forall l s s', cur_inv s -> Forall cop_ok l ->
+  run_seq fo l s = Some (t, s') ->
+  h_input (heap s') = h_input (heap s) /\ h_stash (heap s') = h_stash (heap s).
+
+Theorem C06_close_open : forall fo l s t s', cur_inv s -> Forall cop_ok l ->
+  run_seq fo l s = Some (EvOpen :: t ++ [EvClose], s') -> bal t ->
+  h_input (heap s') = h_input (heap s) /\ h_offset (heap s') = h_offset (heap s) /\
+  h_stash (heap s') = h_stash (heap s).
+Proof. exact close_open. Qed.
+Check C06_close_open : forall fo l s t s', cur_inv s -> Forall cop_ok l ->
+  run_seq fo l s = Some (EvOpen :: t ++ [EvClose], s') -> bal t ->
+  h_input (heap s') = h_input (heap s) /\ h_offset (heap s') = h_offset (heap s) /\
+  h_stash (heap s') = h_stash (heap s).
+
+(* ---------- non-vacuity ---------- *)
+(* the input is bits [3, 19) of |ab cd ef| (stale bits before and after), the offset 5 is in
+   the middle of a byte, the byte order is big; 7 and 99 are on the stack *)
+Definition ex_inp : cbs := mkcbs 3 19 [171; 205; 239]%N.
+Definition ex_state (d : list cell) : state :=
+  mkstate [] [CInt 1; CBits ex_inp; CInt 5; CVec []; CNil; CInt 0]
+          [] [] [] [] d [] [] [] [] ctx0 [] 0%Z None None None None EmptyString None false.
+
+Example C06_nonvacuous :
+  let s := ex_state [CInt 7; CInt 99] in
+  cursor s ex_inp 5 /\ cur_inv s /\
+  (* `7 bits`: bits [5, 12) = 0111100, offset 12, 99 still below *)
+  (exists s', with_size read_bits s = ROk tt s' /\
+              ds s' = [CBits (mkcbs 5 12 [171; 205; 239]%N); CInt 99] /\
+              abs (mkcbs 5 12 [171; 205; 239]%N) = [false; true; true; true; true; false; false] /\
+              slice_bits ex_inp 5 7 = [false; true; true; true; true; false; false] /\
+              h_offset (heap s') = Some 12%Z /\ h_input (heap s') = Some ex_inp) /\
+  (* `7 uint` = 0b0111100 = 60 *)
+  (exists s', with_size (fun n => with_order (read_unsigned n)) s = ROk tt s' /\
+              map value (ds s') = [CInt 60; CInt 99] /\ h_offset (heap s') = Some 12%Z) /\
+  (* `20 bits`: past the end; input and offset untouched, the argument popped *)
+  (exists s', with_size read_bits (ex_state [CInt 20; CInt 99]) = RErr ERead None s' /\
+              ds s' = [CInt 99] /\ heap s' = heap s) /\
+  (* `2^64 bits` and `-1 bits`: argument errors, same frame *)
+  (exists s', with_size read_bits (ex_state [CInt (2 ^ 64); CInt 99]) = RErr EOverflow None s' /\
+              ds s' = [CInt 99] /\ heap s' = heap s).
+Proof.
+  cbv zeta. split; [|split; [|split; [|split; [|split]]]].
+  - split; [reflexivity|]. unfold hcursor. cbn [ex_state heap].
+    split; [cbn; lia|]. split; [reflexivity|]. split; [reflexivity|]. split.
+    + split; [cbn; lia|]. split; [cbn; lia|]. repeat constructor.
+    + split; [reflexivity|]. cbn. lia.
+  - split; [|split].
+    + exists ex_inp, 5%Z. split; [reflexivity|]. unfold hcursor. cbn [ex_state heap].
+      split; [cbn; lia|]. split; [reflexivity|]. split; [reflexivity|]. split.
+      * split; [cbn; lia|]. split; [cbn; lia|]. repeat constructor.
+      * split; [reflexivity|]. cbn. lia.
+    + exists []. split; [reflexivity|constructor].
+    + constructor; [intros b Hb; discriminate|constructor; [intros b Hb; discriminate|constructor]].
+  - eexists. split; [vm_compute; reflexivity|]. repeat split.
+  - eexists. split; [vm_compute; reflexivity|]. repeat split.
+  - eexists. split; [vm_compute; reflexivity|]. repeat split.
+  - eexists. split; [vm_compute; reflexivity|]. repeat split.
+Qed.
+
+(* nested open/close with failing words in between: the harness run has a balanced trace and
+   ends with the original input and offset *)
+Example C06_lifo_nonvacuous : forall fo,
+  let s := ex_state [] in
+  let inner := CBits (mkcbs 4 12 [255; 15]%N) in
+  exists s',
+    run_seq fo [Lit inner; Word "open-bitstr"; Lit (CInt 3); Word "bits"; Lit (CInt 999); Word "bits";
+                Lit inner; Word "open-bitstr"; Word "u8"; Word "close-bitstr";
+                Word "remain"; Word "close-bitstr"]%string s
+    = Some ([EvPlain; EvOpen; EvPlain; EvPlain; EvPlain; EvPlain;
+             EvPlain; EvOpen; EvPlain; EvClose; EvPlain; EvClose], s') /\
+    h_input (heap s') = Some ex_inp /\ h_offset (heap s') = Some 5%Z /\ h_stash (heap s') = Some [] /\
+    map value (ds s') = [CInt 5; CInt 240; CBits (mkcbs 4 7 [255; 15]%N)].
+Proof. intro fo. cbv zeta. eexists. split; [vm_compute; reflexivity|]. repeat split. Qed.
